@@ -17,7 +17,7 @@ import copy
 
 import numpy as np
 
-from harness.core import MachineryError, f2b, flist, parse_flist
+from harness.core import MachineryError, f2b, flist, ilist, parse_flist
 
 MODEL_MODULES = ['SkyllhModel.Model.Cache']
 
@@ -584,9 +584,15 @@ def _request(case, variant):
                                                   spec['interp'] == 'parabola', spec.get('cache_bkg', spec['cache'])))
     vbits = ''.join('1' if b else '0' for b in variant)
     nb = lambda t: ';'.join('%s:%s' % (f2b(k), f2b(next(iter(v)))) for k, v in sorted(t.items())) or '-'  # noqa
-    return 'hist %s %s %s %s %s %s %s %s %d %d %s' % (vbits, cfgbits, ';'.join(man) or '-', ';'.join(bkg), nb(up), nb(lo),
-                                                      f2b(G.delta), flist(sorted(gridpts)), case['d0'], case['s0'],
-                                                      ';'.join(toks) or '-')
+    sel = []
+    if spec.get('evsel'):
+        for d_ in sorted({d__ for (d__, _) in ds}):
+            for s_ in sorted({s__ for (_, s__) in ds}):
+                for k in range(K):
+                    sel.append('%d:%d:%d:%s' % (d_, s_, k, ilist(cf.sel_positions(spec, d_, k))))
+    return 'hist %s %s %s %s %s %s %s %s %s %d %d %s' % (vbits, cfgbits, ';'.join(man) or '-', ';'.join(bkg), nb(up), nb(lo),
+                                                         f2b(G.delta), flist(sorted(gridpts)), ';'.join(sel) or '-',
+                                                         case['d0'], case['s0'], ';'.join(toks) or '-')
 
 
 _GRIDS = {}
@@ -857,8 +863,8 @@ def _top_request(case, lops, variant, cascade=True):
         elif op[0] == 'G':
             toks.append('G' + f2b(op[1]))
     nev = ';'.join('%d:%d' % (d_, n) for d_, n in sorted(cf.N_OF.items()))
-    return 'top %s %s %s %s %d %s %s' % (' '.join(w[1:9]), nev, ';'.join(sorted(set(ak))) or '-', f2b(cf.one_plus_alpha()),
-                                         1 if cascade else 0, ' '.join(w[9:11]), ';'.join(toks) or '-')
+    return 'top %s %s %s %s %d %s %s' % (' '.join(w[1:10]), nev, ';'.join(sorted(set(ak))) or '-', f2b(cf.one_plus_alpha()),
+                                         1 if cascade else 0, ' '.join(w[10:12]), ';'.join(toks) or '-')
 
 
 def _closeS(a, b, scale=0.0):
@@ -1100,7 +1106,7 @@ def classify(name, case, res):
 def all_specs(split_ok):
     specs = [dict(K=3, split=sp, fields=f, cache=c, interp=i, scale='small')
              for sp in ((False, True) if split_ok else (False,)) for f in ('none', 'all') for c in (False, True)
-             for i in ('linear', 'parabola') if (sp or c)]
+             for i in ('linear', 'parabola') if (c if not sp else (f == 'all' or c))]
     for K in (1, 2):
         for split in ((False, True) if (K == 2 and split_ok) else (False,)):
             for fields in ('none', 'static', 'all'):
@@ -1164,7 +1170,7 @@ def probe_cases(spec, i):
         out.append(dict(spec=sp, d0=2, s0=0, ops=[['E', 2.5, q], ['H', 2.5]], final=['grad2multi_raw', 0.7]))
     if spec.get('graph') == 'i3':
         return out
-    if spec.get('scale') == 'mjd':
+    if spec.get('scale') == 'mjd' or (K == 2 and not split):
         # MJD-sized parameter values matter for the grid-key logic only: keep the new-trial probe and the probes that move
         # between grid cells / onto a grid point; the identity / error-path / option probes run on the small-valued twin
         keep = [c for c in out if all(o[0] in ('E', 'I') for o in c['ops']) and c['final'][0] in ('eval', 'eval_grad2')]
@@ -1178,6 +1184,7 @@ def probe_cases(spec, i):
         c['spec'] = dict(c['spec'], norm=r.random() < 0.5, J=2 if (r.random() < 0.5 or any(o[0] == 'H' for o in c['ops'])) else 1,
                          dY=r.random() < 0.4, product=r.choice([None, 'first', 'second']),
                          fp_form=r.choice([None, None, 'strided', 'readonly', 'recarray']), scribble=r.random() < 0.3,
+                         evsel=r.random() < 0.3,
                          cache_bkg=(not c['spec']['cache']) if r.random() < 0.3 else c['spec']['cache'])
     return out
 
@@ -1266,7 +1273,7 @@ def gen_case(ctx, spec, maxlen):
                 fp_form=rng.choice([None, None, 'strided', 'readonly', 'recarray']), scribble=rng.random() < 0.3)
     if spec.get('graph') != 'i3':
         # option interactions: non-trivial normalisation factor function of the grid PDFs; a second dataset
-        spec = dict(spec, norm=rng.random() < 0.4, J=2 if rng.random() < 0.4 else 1,
+        spec = dict(spec, evsel=rng.random() < 0.3, norm=rng.random() < 0.4, J=2 if rng.random() < 0.4 else 1,
                     cache_bkg=(not spec['cache']) if rng.random() < 0.3 else spec['cache'])
     return dict(spec=spec, d0=rng.randrange(5), s0=rng.randrange(2), ops=ops, final=final)
 
@@ -1298,7 +1305,12 @@ def run(ctx):
                          'leaf values (spline value per event) recomputed with scipy.interpolate.RegularGridInterpolator',
                          'grid keys taken from the real ParameterGrid (property C15)',
                          'IEEE rounding is outside the theorems; the LLH value formula itself is property C01']
-    ctx.assumptions += ['a source change is followed by initialize_trial (documented requirement of change_shg_mgr)',
+    ctx.assumptions += ['leaf tables are well-formed (every signal block as long as its selection, positions in range): checked by '
+                        'cache_fixtures.well_formed; queries have one value and one grid key per source',
+                        'top-level transparency is claimed for complete call sequences (initialize_trial then the '
+                        'initialize_for_new_trial cascade); broken orders are compared with the model, not claimed transparent',
+                        'grids contain neither 0.0 nor NaN (the executed model identifies keys by bit pattern)',
+                        'a source change is followed by initialize_trial (documented requirement of change_shg_mgr)',
                         'a source change keeps the number of sources (the ParameterModelMapper is built for a fixed source count)',
                         'all source hypotheses of one object graph have the same number of sources',
                         'object identity is varied on purpose: events array new / same instance again / same instance edited in '
@@ -1325,6 +1337,9 @@ def run(ctx):
         i3_cases += [gen_case(ctx, sp, maxlen) for _ in range(ctx.n(4, 100))]
     import collections
     stats = {'floats': 0, 'bit_exact': 0, 'branches': collections.Counter()}
+    import time as _time
+    phase = {}
+    t_ph = _time.time()
     # ---- implementation runs + model requests (one driver batch)
     impls, reqs = [], []
     used_final = {}
@@ -1348,7 +1363,11 @@ def run(ctx):
                 used_final[ci] = {k: r[k] for k in ('llh', 'grads', 'ratio', 'grad')} if isinstance(r, dict) else r
             else:
                 used_final[ci] = None
+    phase['impl runs + snapshot'] = round(_time.time() - t_ph, 1)
+    t_ph = _time.time()
     models = ctx.driver('C06', reqs)
+    phase['driver hist'] = round(_time.time() - t_ph, 1)
+    t_ph = _time.time()
     suspicious = []
     for (case, is_w), impl, m in zip(cases, impls, models):
         sp = case['spec']
@@ -1365,7 +1384,10 @@ def run(ctx):
         if d:
             suspicious.append((case, impl, m, d))
     # ---- property oracles on the implementation
+    phase['compare'] = round(_time.time() - t_ph, 1)
+    t_ph = _time.time()
     reported = set()
+    oracle_s = collections.Counter()
     for c in i3_cases:
         ctx.case(key=(c['spec'], c['d0'], c['s0'], c['ops'], c['final']), desc=c if ctx.evaluations % 211 == 0 else None)
         ctx.count('cfg:i3/K%d/%s/%s' % (c['spec']['K'], c['spec']['order'], c['spec']['interp']))
@@ -1375,21 +1397,24 @@ def run(ctx):
     for ci, (case, is_w) in enumerate(cases + [(c, False) for c in i3_cases]):
         for name in ('fresh_vs_used', 'cache_onoff', 'cache_snapshot', 'trace_fresh', 'repeat_final', 'arg_forms'):
             if name == 'arg_forms' and not ((case['spec'].get('fp_form') or case['spec'].get('scribble'))
-                                             and ctx.rng.random() < 0.4):
+                                             and ctx.rng.random() < 0.3):
                 continue
-            if name == 'repeat_final' and case['final'][0] == 'eval':
-                continue            # evaluate twice in a row is clause (3) of cache_snapshot
+            if name == 'repeat_final' and (case['final'][0] == 'eval' or (case['final'][0] == 'eval_grad2' and not is_w
+                                                                          and ctx.rng.random() < ctx.n(0.4, 0.0))):
+                continue            # evaluate twice in a row is clause (3) of cache_snapshot; eval_grad2 is sampled in quick
             if name == 'cache_onoff' and (case['spec'].get('graph') == 'i3' or not (is_w or ctx.rng.random() < 0.25)):
                 continue
             if name == 'trace_fresh' and (case['spec'].get('graph') != 'i3' or not any(op[0] == 'E' for op in case['ops'])):
                 continue
             ctx.count('oracle:' + name)
+            t_or = _time.time()
             if name == 'cache_snapshot' and ci in snap_done:
                 res = snap_done[ci]
             elif name == 'fresh_vs_used' and ci in used_final:
                 res = o_fresh_vs_used(ctx, case, used=used_final[ci])
             else:
                 res = ORACLES[name](ctx, case)
+            oracle_s[name] += _time.time() - t_or
             if res:
                 sig0 = classify(name, case, res)
                 if sig0 in reported:
@@ -1429,10 +1454,12 @@ def run(ctx):
                           relation='values 1e-9 relative; hit/miss counts and grad2 provenance exact',
                           impl_output=_short(impl), model_output=m[:300], signature='C06/corr/' + _corr_mode(d),
                           no_failing_input=True)
+    phase['oracles'] = {k: round(v, 1) for k, v in oracle_s.items()}
+    t_ph = _time.time()
     # ---- upper layers: real call sequences vs Model/CacheTop.lean (complete sequences, and deliberately broken ones)
     tcases = []
     for case, is_w in cases:
-        if case['final'][0] in ('maximize', 'grad2multi_raw') or ctx.rng.random() >= ctx.n(0.18, 0.5):
+        if case['final'][0] in ('maximize', 'grad2multi_raw') or ctx.rng.random() >= ctx.n(0.12, 0.5):
             continue
         case = dict(case, spec=dict(case['spec'], J=1, product=None))     # the modelled upper layers: one dataset, no product
         (lops, broke) = top_ops(case, ctx.rng)
@@ -1483,6 +1510,8 @@ def run(ctx):
                         relation='log-lambda, ns-gradient, second-derivative number 1e-9 relative; ratios 1e-9; raised/refused exact',
                         impl_output=_short(i), model_output=m[:300], signature='C06/top_corr/' + mode, no_failing_input=True)
     ctx.extra['top_numbers_compared'] = stats.get('top_numbers', 0)
+    phase['top'] = round(_time.time() - t_ph, 1)
+    ctx.extra['phase_s'] = phase
     # ---- data fields depending on global fit parameters (TrialDataManager level)
     reset = extract_variant(ctx, with_fields=True)[4]
     ctx.extra['source_facts']['resetFields'] = reset
@@ -1538,6 +1567,7 @@ def _count_classes(ctx, case):
     """one counter per class named in the property's quantifier"""
     sp = case['spec']
     ctx.count('class:fields=' + sp['fields'])
+    ctx.count('class:event selection method ' + ('with unequal per-source blocks' if sp.get('evsel') else 'none'))
     ctx.count('class:pd caching ' + ('on' if sp['cache'] else 'off'))
     ctx.count('class:parameter values ' + ('MJD-like' if sp['scale'] == 'mjd' else 'small'))
     ctx.count('class:interpolation=' + sp['interp'])
